@@ -568,5 +568,24 @@ def rule_MK5(ctx, rep):
             rep.ok('MK5', fn, site, 't+1 distinct senders contribute without PRSS')
         else:
             rep.bad('MK5', fn, site, 'the number of senders without PRSS is not t+1', fn.node)
+        # every contribution is added up: an explicit element count of the summed contributions must be the number of senders
+        for c in ast.walk(fn.node):
+            if isinstance(c, ast.Call) and astq.attr_tail(c.func) == 'fromiter':
+                cnt = [k.value for k in c.keywords if k.arg == 'count'] + list(c.args[2:3])
+                if not cnt:
+                    continue
+                ce = cnt[0]
+                # names of the enclosing function (closure variables of the nested coroutine)
+                class X(ast.NodeTransformer):
+                    def visit_Name(self, nm):
+                        v = astq.sole_definition(fn.node, nm.id)
+                        return v if v is not None and not isinstance(v, (ast.Call, ast.Await)) or (v is not None and norm(v) in ('len(self.parties)',)) else nm
+                import copy
+                cl = to_lin(sem.symx(X().visit(copy.deepcopy(ce))), {}, opaque=True)
+                if cl is not None and cl == Lin.sym('T') + 1:
+                    rep.ok('MK5', fn, c, 'the contributions of all t+1 senders are added up')
+                else:
+                    rep.bad('MK5', fn, c, f'{norm(ce)} contributions are added up although t+1 senders contribute: the mask is the sum of fewer terms than '
+                            'intended, so fewer than t+1 parties know it entirely (with t = 1 one party knows the whole mask)')
     if n < 3:       # one divisor site per function at least (the two PRSS cases may share one conditional divisor)
         raise AnalysisError('MK5: contributor-count sites not found')
